@@ -155,11 +155,23 @@ pub mod proofs {
         if kani::any() {
             c.pgroup(kani::any());
         }
+        let mut pipes_handed_over = 0;
+        if !full && kani::any() {
+            // quick tier: one piped stream, so that the pipe bookkeeping of spawn is on some path
+            pipes_handed_over += 1;
+            c.stdin(Stdio::MakePipe);
+        }
         if full {
             if let Some(s) = any_stdio() {
+                if matches!(s, Stdio::MakePipe) {
+                    pipes_handed_over += 1;
+                }
                 c.stdin(s);
             }
             if let Some(s) = any_stdio() {
+                if matches!(s, Stdio::MakePipe) {
+                    pipes_handed_over += 1;
+                }
                 c.stdout(s);
             }
         }
@@ -190,6 +202,14 @@ pub mod proofs {
             }
         } else {
             assert!(r.is_err(), "no_child_no_ok");
+        }
+        // (3) descriptor frame in the caller (C12): on Err nothing spawn opened stays open — stdio pipes, both ends
+        // of the CLOEXEC sync pipe; on Ok exactly the pipe ends handed to the caller inside `Child` are open
+        assert!(kernel::bad_closes() == 0, "no_double_or_foreign_close");
+        if r.is_err() {
+            assert!(kernel::fds_open_by_callee() == 0, "nothing_opened_stays_open_on_error");
+        } else {
+            assert!(kernel::fds_open_by_callee() == pipes_handed_over, "only_the_pipe_ends_handed_to_the_caller_stay_open");
         }
         kani::cover!(r.is_ok(), "spawn succeeds");
         kani::cover!(r.is_err() && fork_at != usize::MAX, "child-side failure reported to the parent");
